@@ -1,6 +1,7 @@
 ---- MODULE InvRoot_MCT ----
-(* Thorough: the automaton over the FULL case lattice of DESIGN.md C01. *)
+(* Thorough: the automaton over the full case lattice of DESIGN.md C01 except that p is      *)
+(* thinned to {1, 4, 8} and only one compute dtype is kept (neither enters a guard).         *)
 EXTENDS InvRoot
-MCT_Cases == Lattice({1, 2, 3, 5, 8, 16}, {0, 2, 4, 6, 8}, {-6, 0, 6}, 1..8, {6, 12}, BOOLEAN,
-                     Methods, {"f64", "f32"})
+MCT_Cases == Lattice({1, 2, 3, 5, 8, 16}, {0, 2, 4, 6, 8}, {-6, 0, 6}, {1, 4, 8}, {6, 12}, BOOLEAN,
+                     Methods, {"f64"})
 ====
